@@ -37,8 +37,29 @@ const OPTS: [IdentifierOption; 6] = [
 const OPT_COQ: [&str; 6] = ["Cas", "Name", "IupacName", "Smiles", "Inchi", "Formula"];
 const OPT_KEY: [&str; 6] = ["cas", "name", "iupac_name", "smiles", "inchi", "formula"];
 
+/// the identifier string that is interned as the number `k`.  Consecutive numbers 2j-1, 2j are DIFFERENT strings that
+/// only a sloppy comparison would identify: they differ in case only (like the SMILES c1ccccc1 / C1CCCCC1), by a trailing
+/// blank, or one is a prefix of the other.
 fn key(k: u32) -> String {
-    format!("x{:03}", k)
+    let j = (k + 1) / 2;
+    let variant = k % 2 == 0;
+    match j % 3 {
+        1 => if variant { format!("C1CC{:03}", j) } else { format!("c1cc{:03}", j) },
+        2 => if variant { format!("n{:03} ", j) } else { format!("n{:03}", j) },
+        _ => if variant { format!("p{:03}0", j) } else { format!("p{:03}", j) },
+    }
+}
+/// the interned numbers of the quoted names of an error message (9999 for a string that is not one of ours)
+fn quoted_keys(s: &str) -> Vec<u32> {
+    let mut out = vec![];
+    let parts: Vec<&str> = s.split('"').collect();
+    let mut i = 1;
+    while i < parts.len() {
+        out.push((1..=64).find(|k| key(*k) == parts[i]).unwrap_or(9999));
+        i += 2;
+    }
+    out.sort();
+    out
 }
 fn seg_name(k: u32) -> String {
     format!("g{:03}", k)
@@ -63,7 +84,7 @@ fn tokens(s: &str, c: char) -> Vec<u32> {
 fn classify(e: &ParameterError, c: char) -> Value {
     match e {
         ParameterError::IncompatibleParameters(m) if m.contains("more than once") => json!({"err": 1, "missing": []}),
-        ParameterError::ComponentsNotFound(m) => json!({"err": 2, "missing": tokens(m, c)}),
+        ParameterError::ComponentsNotFound(m) => json!({"err": 2, "missing": if c == 'x' { quoted_keys(m) } else { tokens(m, c) }}),
         ParameterError::FileIO(_) => json!({"err": 3, "missing": []}),
         ParameterError::Serde(_) => json!({"err": 4, "missing": []}),
         ParameterError::IncompatibleParameters(_) => json!({"err": 5, "missing": []}),
@@ -1085,6 +1106,68 @@ fn behaviour_pcsaft(path: &str, max: usize) -> Value {
 
 // ------------------------------------------------------------------------------------------------------------
 
+/// SAFT-VR Mie parameter sets from records: components with A and/or B sites in every order, a symmetric matrix of binary
+/// records some of which carry cross-association parameters; what the association parameters of every site pair are
+fn assoc_cases(rng: &mut Rng, n: usize, coq: &mut String) -> Value {
+    let mut out = vec![];
+    let mut cq = vec![];
+    for _ in 0..n {
+        let nc = 2 + rng.below(2);
+        let sites: Vec<(u32, u32)> = (0..nc).map(|_| [(1, 1), (1, 1), (2, 1), (1, 0), (0, 1), (0, 0), (0, 2)][rng.below(7)]).collect();
+        let pure: Vec<PureRecord<SaftVRMieRecord>> = (0..nc)
+            .map(|i| {
+                let (na, nb) = sites[i];
+                let rec = SaftVRMieRecord::new(
+                    1.0 + i as f64 / 4.0, 3.0 + i as f64 / 8.0, 200.0 + 16.0 * i as f64, 12.0 + i as f64, 6.0,
+                    Some(0.25 + i as f64 / 16.0), Some(1500.0 + 64.0 * i as f64), Some(na as f64), Some(nb as f64), None, None, None, None);
+                PureRecord::new(Identifier::default(), 10.0 + i as f64, rec)
+            })
+            .collect();
+        // symmetric matrix: one record per unordered pair
+        let mut eps: Vec<Vec<Option<i64>>> = vec![vec![None; nc]; nc];
+        let mut rc: Vec<Vec<Option<i64>>> = vec![vec![None; nc]; nc];
+        for i in 0..nc {
+            for j in i + 1..nc {
+                let e = if rng.f64() < 0.7 { Some(1 + rng.below(60) as i64) } else { None };
+                let r = if rng.f64() < 0.5 { Some(1 + rng.below(60) as i64) } else { None };
+                eps[i][j] = e; eps[j][i] = e; rc[i][j] = r; rc[j][i] = r;
+            }
+        }
+        let mk = |with_assoc: bool| -> ndarray::Array2<SaftVRMieBinaryRecord> {
+            ndarray::Array2::from_shape_fn([nc, nc], |(i, j)| {
+                if i == j {
+                    SaftVRMieBinaryRecord::default()
+                } else if with_assoc {
+                    SaftVRMieBinaryRecord::new(Some(0.015625), None, rc[i][j].map(|z| z as f64 / 64.0), eps[i][j].map(|z| z as f64 * 64.0))
+                } else {
+                    SaftVRMieBinaryRecord::new(Some(0.015625), None, None, None)
+                }
+            })
+        };
+        let build = |with_assoc: bool| -> Option<(Vec<Vec<f64>>, Vec<Vec<f64>>)> {
+            catch_unwind(AssertUnwindSafe(|| SaftVRMieParameters::from_records(pure.clone(), Some(mk(with_assoc))).ok()))
+                .ok()
+                .flatten()
+                .map(|p| {
+                    let a = &p.association;
+                    let rows = |m: &ndarray::Array2<f64>| (0..m.nrows()).map(|x| m.row(x).to_vec()).collect::<Vec<_>>();
+                    (rows(&a.epsilon_k_ab), rows(&a.rc_ab))
+                })
+        };
+        let with = build(true);
+        let base = build(false);
+        out.push(json!({"sites_na_nb": sites, "binary_epsilon_k_ab/64": eps, "binary_rc_ab*64": rc,
+                        "with": with.as_ref().map(|x| json!({"epsilon_k_ab": x.0, "rc_ab": x.1})),
+                        "base": base.as_ref().map(|x| json!({"epsilon_k_ab": x.0, "rc_ab": x.1}))}));
+        let bl = |v: Vec<bool>| format!("[{}]", v.iter().map(|b| b.to_string()).collect::<Vec<_>>().join("; "));
+        let ml = |m: &Vec<Vec<Option<i64>>>| format!("[{}]", m.iter().map(|r| format!("[{}]", r.iter().map(|z| coq_oz(*z)).collect::<Vec<_>>().join("; "))).collect::<Vec<_>>().join("; "));
+        cq.push(format!("mkAC {} {} {} {}", bl(sites.iter().map(|s| s.0 > 0).collect()), bl(sites.iter().map(|s| s.1 > 0).collect()), ml(&eps), ml(&rc)));
+    }
+    writeln!(coq, "Definition assoc_cases : list assoc_case := [\n {}].", cq.join(";\n ")).unwrap();
+    writeln!(coq, "Eval vm_compute in (\"ASSOC\", map run_assoc assoc_cases).").unwrap();
+    Value::Array(out)
+}
+
 fn gen_bfile(rng: &mut Rng, nkeys: usize, style: usize) -> FileSpec<BRec> {
     match style {
         0 => FileSpec::Recs(vec![]),
@@ -1509,6 +1592,11 @@ fn main() {
     writeln!(coq, "Eval vm_compute in (\"HETERO\", map (run_hetero {}) segcases).", dup_check).unwrap();
     std::fs::write(format!("{}/segments.v", cli.out), &coq).unwrap();
 
+    // ---------------------------------------------------------------- binary association records (SAFT-VR Mie)
+    let mut coq = String::from(header);
+    let impl_assoc = assoc_cases(&mut rng, if full { 1500 } else { 200 }, &mut coq);
+    std::fs::write(format!("{}/assoc.v", cli.out), &coq).unwrap();
+
     let mut coq = String::from(header);
     let impl_serde = serde_cases(&mut rng, if full { 2000 } else { 300 }, &mut coq);
     std::fs::write(format!("{}/serde.v", cli.out), &coq).unwrap();
@@ -1574,6 +1662,7 @@ fn main() {
         "hetero": impl_hetero,
         "serde": impl_serde,
         "serde_sweep": sweep_results,
+        "assoc": impl_assoc,
         "shipped": shipped,
         "behaviour": behaviour,
         "segments_dup_check": dup_check,
